@@ -5,7 +5,8 @@ For one concrete DPT class the space is the complete product described in DESIGN
   * all DPTArray payloads of length 0, 1 and 2 (65 793),
   * for a declared array length L >= 3: every octet value at every position over the
     bases {00.., FF.., seed-derived}, (thorough, L in 3..4: every pair of positions over a
-    32-value octet alphabet), and wrong lengths {3..16, 20, 255} zero/FF filled.
+    32-value octet alphabet), for L in 3..4 the full product over a 20-value (quick, L=4: 10-value) field-boundary alphabet,
+    and wrong lengths {3..16, 20, 255} zero/FF filled.
 """
 
 from __future__ import annotations
@@ -23,6 +24,9 @@ PAIR_ALPHABET = sorted(
     {0, 1, 2, 3, 7, 8, 9, 0x0F, 0x10, 0x17, 0x18, 0x19, 0x1F, 0x20, 0x3B, 0x3C, 0x3F, 0x40, 0x63, 0x64,
      0x7F, 0x80, 0x81, 0xBF, 0xC0, 0xE0, 0xEF, 0xF0, 0xF7, 0xF8, 0xFE, 0xFF}
 )
+
+
+FIELD_ALPHABET = [0, 1, 2, 11, 12, 13, 23, 24, 31, 32, 59, 60, 89, 90, 99, 100, 127, 128, 254, 255]
 
 
 def all_dpt_classes() -> list[type[DPTBase]]:
@@ -75,6 +79,15 @@ def payloads(cls: type[DPTBase], seed: int, thorough: bool, short: bool = True) 
                             if t not in emitted:
                                 emitted.add(t)
                                 yield DPTArray(t)
+    if L in (3, 4):
+        # multi-field types (dates, times, colours ...): the full product over a boundary alphabet, so that combinations of
+        # individually valid fields occur (a per-position sweep around 00../FF.. never has a valid day AND month AND year 0)
+        alph = FIELD_ALPHABET if (thorough or L == 3) else FIELD_ALPHABET[::2]
+        for t in itertools.product(alph, repeat=L):
+            bt = bytes(t)
+            if bt not in emitted:
+                emitted.add(bt)
+                yield DPTArray(bt)
     for n in sorted(lengths):
         if n == L:
             continue
